@@ -274,7 +274,11 @@ func (c *Chunk) addLocked(chunk pb.Chunk) bool {
 	}
 	if c.shouldValidate(chunk) {
 		if !td.validator.AddChunk(chunk.Data, chunk.ChunkId) {
+			// the stream can no longer be completed, its following chunks must not
+			// be assembled into a snapshot that misses the rejected chunk
 			plog.Warningf("ignored a invalid chunk %s", key)
+			c.removeTempDir(td.first)
+			c.reset(key)
 			return false
 		}
 	}
